@@ -213,6 +213,45 @@ theorem leafSteps_spec {β} (μ : Op → Nat → β) (hμ : Mono μ) :
         · exact d (by simp [newLeaf])
       · rw [hv, pmOps_flatMap μ (v + 1 + k) (v + 1) _ news (fun o ho => (hchild o ho).2), hg]
 
+/-- Steps for which no adapter is registered never change what a node means (the operator forms of
+GridSample change only at 19→20, of DFT at 19→20, of GroupNormalization at 20→21). -/
+theorem meaning_mono_lemma : Mono Op.meaning := by
+  intro op v h
+  cases op with
+  | plain n => rfl
+  | const s is => rfl
+  | call f => rfl
+  | gridSample mode align pad =>
+    have hv : v ≠ 19 := by
+      intro hv; subst hv
+      simp only [adapt, if_true, gridsample_19_20] at h
+      split at h <;> (try split at h) <;> cases h
+    by_cases hle : v ≤ 19
+    · have hle' : v + 1 ≤ 19 := by omega
+      simp [Op.meaning, gsInterp, hle, hle']
+    · have hle' : ¬ v + 1 ≤ 19 := by omega
+      simp [Op.meaning, gsInterp, hle, hle']
+  | dft axis inv one hasLen axisIn rank =>
+    have hv : v ≠ 19 := by
+      intro hv; subst hv
+      simp only [adapt, if_true, dft_19_20] at h
+      cases h
+    by_cases hle : v ≤ 19
+    · have hle' : v + 1 ≤ 19 := by omega
+      simp [Op.meaning, hle, hle']
+    · have hle' : ¬ v + 1 ≤ 19 := by omega
+      simp [Op.meaning, hle, hle']
+  | groupNorm n =>
+    have hv : v ≠ 20 := by
+      intro hv; subst hv
+      simp only [adapt, if_true] at h
+      exact gn_ne_noAdapter n h
+    by_cases hle : v ≤ 20
+    · have hle' : v + 1 ≤ 20 := by omega
+      simp [Op.meaning, hle, hle']
+    · have hle' : ¬ v + 1 ≤ 20 := by omega
+      simp [Op.meaning, hle, hle']
+
 theorem pmLeaves_append {β} (μ : Op → Nat → β) (d : Nat) (a b : List Leaf) :
     pmLeaves μ d (a ++ b) = pmLeaves μ d a ++ pmLeaves μ d b := by
   induction a with
